@@ -21,7 +21,6 @@ import (
 	"context"
 	"encoding/json"
 	"fmt"
-	"os"
 	"reflect"
 	"time"
 
@@ -287,9 +286,13 @@ type HCfg struct {
 	hidden int
 }
 
-type staticSrc struct{ mk func(t *dials.Type) reflect.Value }
+type staticSrc struct {
+	mk func(t *dials.Type) reflect.Value
+}
 
-func (s *staticSrc) Value(_ context.Context, t *dials.Type) (reflect.Value, error) { return s.mk(t), nil }
+func (s *staticSrc) Value(_ context.Context, t *dials.Type) (reflect.Value, error) {
+	return s.mk(t), nil
+}
 
 type watchSrc struct {
 	mk   func(t *dials.Type) reflect.Value
@@ -297,7 +300,9 @@ type watchSrc struct {
 	args dials.WatchArgs
 }
 
-func (s *watchSrc) Value(_ context.Context, t *dials.Type) (reflect.Value, error) { return s.mk(t), nil }
+func (s *watchSrc) Value(_ context.Context, t *dials.Type) (reflect.Value, error) {
+	return s.mk(t), nil
+}
 func (s *watchSrc) Watch(_ context.Context, t *dials.Type, args dials.WatchArgs) error {
 	s.typ, s.args = t, args
 	return nil
@@ -508,9 +513,6 @@ func run(raw json.RawMessage) driver.Result {
 		} else {
 			for i := range plain {
 				if plain[i] != mutated[i] {
-					if os.Getenv("C02_DEBUG") != "" {
-						fmt.Fprintf(os.Stderr, "A: %s\nB: %s\n", plain[i], mutated[i])
-					}
 					res.Direct = append(res.Direct, fmt.Sprintf("version %d depends on changes the caller made to its defaults AFTER Config returned", i))
 					break
 				}
